@@ -152,6 +152,10 @@ class Gen:
     def prim(self, t, sc, d):
         r = self.r
         e = lambda ty: self.expr(ty, sc, d - 1)
+        if t in ("int", "bool", "list", "str") and self.p(0.22):
+            x = self.extra_prim(t, sc, d)
+            if x is not None:
+                return x
         if t == "int":
             k = r.randrange(16)
             if k < 4:
@@ -247,6 +251,93 @@ class Gen:
         if t == "fn1":
             return self.make_fn1(sc, d)
         raise ValueError(t)
+
+    def extra_prim(self, t, sc, d):
+        """Second family of primitive applications and derived forms: pairs, association lists, list accessors, guarded
+        hash lookups, vector literals, `do` loops, `when` / `unless`, string and character operations, hash sets."""
+        r = self.r
+        e = lambda ty: self.expr(ty, sc, d - 1)
+        self.features.add("extra-prims")
+        if t == "int":
+            k = r.randrange(12)
+            if k == 0:      # pairs
+                return [S(r.choice(["car", "cdr"])), [S("cons"), e("int"), e("int")]]
+            if k == 1:      # guarded hash lookup
+                key = self.lit("sym")
+                h = self.fresh("h")
+                return [S("let"), [[h, e("hash")]], [S("if"), [S("hash-contains?"), h, key], [S("hash-ref"), h, key], r.randint(0, 9)]]
+            if k == 2:      # vector literal (its own instruction)
+                items = [r.randint(0, 9) for _ in range(r.randint(1, 4))]
+                return [S("vector-ref"), VecLit(items), r.randrange(len(items))]
+            if k == 3:      # do loop with an accumulator
+                self.features.add("do-loop")
+                i, acc = self.fresh("i"), self.fresh("acc")
+                sc2 = Scope(sc)
+                sc2.add(i, "int", "param")
+                sc2.add(acc, "int", "param")
+                return [S("do"), [[i, 0, [S("+"), i, 1]], [acc, e("int"), self.expr("int", sc2, d - 2)]], [[S(">="), i, r.randint(0, 4)], acc]]
+            if k == 4:      # list accessors on a list that is long enough
+                l = self.fresh("l")
+                return [S("let"), [[l, [S("append"), [S("list"), e("int"), e("int"), e("int")], e("list")]]],
+                        [S(r.choice(["first", "second", "third", "cadr", "caddr", "last"])), l]]
+            if k == 5:
+                l = self.fresh("l")
+                return [S("let"), [[l, [S("cons"), e("int"), e("list")]]], [S("list-ref"), l, [S("-"), [S("length"), l], 1]]]
+            if k == 6:      # association list
+                return [S("cdr"), [S("assoc"), r.choice([1, 2]), [S("list"), [S("cons"), 1, e("int")], [S("cons"), 2, e("int")]]]]
+            if k == 7:
+                return [S("char->integer"), r.choice([Char(97), Char(65), Char(48), Char(955)])]
+            if k == 8:
+                return [S("length"), [S("string->list"), e("str")]]
+            if k == 9:      # when / unless as the last effect of a begin: value is used only for its effect
+                v = self.fresh("w")
+                sc2 = Scope(sc)
+                sc2.add(v, "int")
+                return [S("let"), [[v, e("int")]], [S(r.choice(["when", "unless"])), self.test(sc2, d - 1), [S("set!"), v, [S("+"), v, 1]]], v]
+            if k == 10:
+                return [S("hashset-length"), [S("hashset-insert"), [S("hashset"), e("int"), e("int")], e("int")]]
+            return [S("length"), [S("list-tail"), [S("cons"), e("int"), e("list")], 1]]
+        if t == "bool":
+            k = r.randrange(7)
+            if k == 0:
+                return [S("if"), [S("member"), e("int"), e("list")], True, False]
+            if k == 1:
+                return [S("hash-contains?"), e("hash"), self.lit("sym")]
+            if k == 2:
+                return [S(r.choice(["eq?", "equal?"])), self.lit("sym"), e("sym")]
+            if k == 3:
+                return [S("string<?"), e("str"), e("str")]
+            if k == 4:
+                return [S("hashset-contains?"), [S("hashset"), e("int"), e("int")], e("int")]
+            if k == 5:
+                return [S(r.choice(["number?", "string?", "symbol?", "vector?", "procedure?", "boolean?", "integer?"])),
+                        e(r.choice(["int", "str", "sym", "vec", "list", "bool"]))]
+            return [S("empty?"), e("list")]
+        if t == "list":
+            k = r.randrange(6)
+            if k == 0:      # improper pair turned back into a list
+                p_ = self.fresh("p")
+                return [S("let"), [[p_, [S("cons"), e("int"), e("int")]]], [S("list"), [S("car"), p_], [S("cdr"), p_]]]
+            if k == 1:
+                return [S("rest"), [S("cons"), e("int"), e("list")]]
+            if k == 2:
+                return [S("cddr"), [S("append"), [S("list"), e("int"), e("int")], e("list")]]
+            if k == 3:      # do loop that builds a list
+                self.features.add("do-loop")
+                i, acc = self.fresh("i"), self.fresh("acc")
+                return [S("do"), [[i, 0, [S("+"), i, 1]], [acc, [S("quote"), []], [S("cons"), i, acc]]], [[S(">="), i, r.randint(0, 4)], acc]]
+            if k == 4:
+                return [S("list-tail"), [S("append"), [S("list"), e("int")], e("list")], 1]
+            return [S("vector->list"), VecLit([r.randint(0, 9) for _ in range(r.randint(0, 3))])]
+        if t == "str":
+            k = r.randrange(3)
+            if k == 0:
+                s_ = self.fresh("s")
+                return [S("let"), [[s_, [S("string-append"), "ab", e("str")]]], [S("substring"), s_, 1, [S("string-length"), s_]]]
+            if k == 1:
+                return [S("string-upcase"), e("str")]
+            return [S("symbol->string"), e("sym")]
+        return None
 
     def make_fn1(self, sc, d):
         """A one-argument int->int procedure, often closing over (and mutating) outer variables."""
@@ -350,14 +441,16 @@ class Gen:
             if h == "quote":
                 return "sym" if isinstance(e[1], Sym) else "list"
             if h in ("+", "-", "*", "quotient", "remainder", "modulo", "abs", "add1", "sub1", "square", "min", "max", "length",
-                     "vector-length", "unbox", "string-length", "foldl", "foldr", "apply", "hash-length", "call/cc", "vector-ref"):
+                     "vector-length", "unbox", "string-length", "foldl", "foldr", "apply", "hash-length", "call/cc", "vector-ref",
+                     "car", "cdr", "first", "second", "third", "cadr", "caddr", "last", "list-ref", "char->integer", "hashset-length", "do"):
                 return "int"
             if h in ("<", ">", "<=", ">=", "=", "not", "and", "or", "null?", "pair?", "list?", "even?", "odd?", "zero?",
-                     "positive?", "negative?", "equal?", "string=?"):
+                     "positive?", "negative?", "equal?", "string=?", "hash-contains?", "eq?", "string<?", "hashset-contains?",
+                     "number?", "string?", "symbol?", "vector?", "procedure?", "boolean?", "integer?", "box?", "empty?"):
                 return "bool"
-            if h in ("cons", "list", "append", "reverse", "map", "filter", "vector->list", "range"):
+            if h in ("cons", "list", "append", "reverse", "map", "filter", "vector->list", "range", "rest", "cddr", "list-tail"):
                 return "list"
-            if h in ("string-append", "number->string", "symbol->string"):
+            if h in ("string-append", "number->string", "symbol->string", "substring", "string-upcase"):
                 return "str"
             if h in ("vector", "list->vector"):
                 return "vec"
